@@ -38,7 +38,7 @@ theorem indexRune_first (s : Bytes) (r : Int) (h : S.validRuneI r = true) :
 /-- the bridge used by every rune search: an exact byte search for `encode r` returns the first
     boundary whose code point is `r` (arbitrary haystack bytes) -/
 theorem byte_search_is_rune_search (s : Bytes) (r : Nat) (hv : validRune r) :
-    IsFirstRune s r (bytesIndex s (encode r)) := bytesIndex_isFirstRune s r hv
+    IsFirstRune s r (A.bytesIndex s (encode r)) := bytesIndex_isFirstRune s r hv
 
 example : S.indexRune [0x78, 0xE2, 0x84, 0xAA] 0x6B = 1 ∧ S.indexRune [0x78, 0xFF] 0xFFFD = 1 ∧
     S.indexByte [0x78, 0xC5, 0xBF] 0x53 = 1 ∧ S.lastIndexByte [0x6B, 0xE2, 0x84, 0xAA, 0x78] 0x4B = 1 ∧
